@@ -34,6 +34,54 @@ def run(repo: Repo, chk: Check) -> None:
     flexibility(repo, chk)
     wiring(repo, chk)
     select(repo, chk)
+    tile_inserts(repo, chk)
+    no_stale_verdicts(repo, chk)
+
+
+def tile_inserts(repo: Repo, chk: Check) -> None:
+    """scheduler_backtrack counts dimensions: after `tile_dim(num_dims - k, bound)` the tiled loop sits at position -k with the template's bound and
+    the recursion goes on with k + 1. A tile_dim that returns the pattern unchanged for some tile size leaves a loop larger than the template
+    bound at a template position."""
+    chk.rule("C16.tile-inserts", "SchedulePattern.tile_dim inserts a dimension on every path: no return hands back the pattern itself", floor=1)
+    f, fl = flow_of(repo, chk, AP, "SchedulePattern.tile_dim")
+    rets = [s for s in fl.stmts(ast.Return) if s.reachable and s.node.value is not None]
+    if not rets:
+        raise AnalysisError(f"{f.where}: no return")
+    for n_, s in enumerate(rets, 1):
+        v = norm.primary(s.expand(s.node.value))
+        if isinstance(v, ast.Name) and v.id == "self":
+            chk.bad("C16.tile-inserts", f"{f.key}:return#{n_}", s.where(),
+                    f"tile_dim returns the pattern unchanged when {[t for t in s.fact_texts if t != 'True'][-2:]}: the scheduler goes on as if the tile loop had been inserted, "
+                    "so a loop with a bound above the template's stays at a template position", s.fact_texts)
+        elif isinstance(v, ast.Call) and len(v.args) >= 2:
+            chk.ok("C16.tile-inserts", f"{f.key}:return#{n_}", s.where(), "a new pattern is constructed")
+        else:
+            raise AnalysisError(f"{s.where()}: what tile_dim returns is not recognised: `{ast.unparse(v)[:80]}`")
+
+
+def no_stale_verdicts(repo: Repo, chk: Check) -> None:
+    """the matcher and the scheduler are functions of their arguments: a verdict or schedule remembered from an earlier call may only be handed out
+    for arguments that determine it"""
+    from .common import memo_audit
+
+    chk.rule("C16.no-stale-verdicts", "no function of the matcher / scheduler hands out a remembered result under a key that does not determine it "
+             "(every argument the result depends on is in the key whole, arrays with their shape)", floor=1)
+    n_f = 0
+    for path in (AP, SCHED):
+        m = repo.module(path)
+        funcs = list(m.funcs.values()) + [fn for c in m.classes.values() for fn in c.methods.values()]
+        for f in funcs:
+            n_f += 1
+            for cont, node, problems, unknown in memo_audit(f, repo):
+                where = f"{m.relpath}:{getattr(node, 'lineno', 0)}"
+                if problems:
+                    chk.bad("C16.no-stale-verdicts", f"{f.key}:{cont}", where,
+                            f"results remembered in `{cont}` are looked up by a key that does not determine them: {problems}; a later call with other arguments gets the earlier answer")
+                elif unknown:
+                    raise AnalysisError(f"{where}: cache `{cont}` of {f.qualname}: cannot tell whether the key determines the result ({unknown})")
+                else:
+                    chk.ok("C16.no-stale-verdicts", f"{f.key}:{cont}", where, f"`{cont}` is keyed by every argument the result depends on")
+    chk.ok("C16.no-stale-verdicts", f"{AP}+{SCHED}:functions", AP, f"{n_f} functions inspected for remembered results", nontrivial=False)
 
 
 def accept_path(repo: Repo, chk: Check) -> None:
